@@ -216,7 +216,7 @@ func (ev *Evaluator) symObj(st *State, path string, t types.Type) *Obj {
 }
 
 // evalWallLimit bounds one evaluation in wall-clock time.
-var evalWallLimit = 20 * time.Second
+var evalWallLimit = 60 * time.Second // 20 s tripped under an 8x oversubscribed machine (a benign edit came back undecided in a thorough run)
 
 func (ev *Evaluator) maxSteps() int {
 	if ev.budget > 0 {
